@@ -194,7 +194,13 @@ impl Archive {
             // Only open a band that has a tail: an interrupted backup can leave a band whose
             // head is missing or empty, and that must not hide the complete bands before it.
             if self.band_is_closed(band_id).await? {
-                let b = Band::open(self, band_id).await?;
+                let b = match Band::open(self, band_id).await {
+                    Ok(b) => b,
+                    // A tail without a head is what a deletion of this band leaves if it is
+                    // interrupted: the band is going away and is not a complete version.
+                    Err(Error::BandHeadMissing { .. }) => continue,
+                    Err(err) => return Err(err),
+                };
                 return Ok(Some(b));
             }
         }
